@@ -234,3 +234,20 @@ h!(c12_full_spi_rm67162, 20, full_spi_fault_h(mipidsi::models::RM67162));
 //@ props=C12,C11,C17 tier=thorough inst="Builder+ST7789 over the real ParallelInterface<Generic8BitBus>, no reset pin" bounds="all options x symbolic failing pin operation x symbolic initial pin levels; unwind 20" timeout=2400 mem=12
 h!(c12_full_par8_st7789, 20, full_par8_fault_h(mipidsi::models::ST7789));
 const _U: Option<(Rgb666, Cfg)> = None;
+
+/// C17 on the real 8-bit parallel interface: without a reset pin the first word latched is the
+/// software reset with DC low, whatever levels the data pins had before.
+#[kani::proof]
+#[kani::unwind(6)]
+//@ props=C17,C07 inst="Builder+VModel over ParallelInterface<Generic8BitBus>, no reset pin" bounds="symbolic initial data pin levels and DC level; all options of the VModel" timeout=900 mem=6
+fn c17_par8_first_word() {
+    use crate::busenv::*;
+    let mut pw = ParWorld::new(kani::any(), kani::any(), 0);
+    let w: *mut ParWorld = &mut pw;
+    let di = ParallelInterface::new(bus8(w), ParDc(w), ParWr(w));
+    let r = Builder::new(VModel::<Rgb565, 240, 320>::new(), di).orientation(any_orientation()).init(&mut NoDelay);
+    assert!(r.is_ok(), "[C17] init over the parallel interface");
+    assert!(pw.probe_hit && (pw.probe_word & 0xff) == 0x01 && !pw.probe_dc, "[C17][C07] the first word latched on the bus is the software reset (0x01) with DC low");
+    assert!(pw.edges == 1 + 1 + 2, "[C17] reset, sleep-out, address mode + parameter");
+    kani::cover!(pw.probe_hit, "cover: reached");
+}
